@@ -687,6 +687,17 @@ class QGen:
         if k == "typed-leaf-seq":
             os_ = self.objseq(scope, fuel - 1)
             ms = [m for m in self.s.classes[os_[1]].methods if m.kind == "num" and (m.enum or m.tree_type)] if os_ else []
+            # ... or one level deeper (a 2-D column): the objects' own object vectors mapped to the typed method
+            deep = [(ov, m) for ov in self.s.classes[os_[1]].methods if ov.kind == "objvec" for m in self.s.classes[ov.cls].methods
+                    if m.kind == "num" and (m.enum or m.tree_type)] if (os_ and self.f.seq2d) else []
+            if deep and self.chance(1, 2):
+                ov, m = self.pick(deep)
+                v = self.newvar(scope, "j")
+                w = self.newvar(self.bind(scope, v, TObj(os_[1])), "k")
+                self.labels.add("enum-column-2D" if m.enum else "tree_type-column-2D")
+                self.labels.add("column-2D")
+                self.nops += 2
+                return (f"{os_[0]}.Select(lambda {v}: {v}.{ov.name}().Select(lambda {w}: {w}.{m.name}()))", TSeq(TSeq(TNum(m.tree_type or "int"))))
             if ms:
                 m = self.pick(ms)
                 v = self.newvar(scope, "j")
